@@ -260,3 +260,51 @@ def instance_state(chk, program, rule='INSTANCE-STATE'):
                     chk.check(ok, rule, f"{mod}.{q}::self.{n.attr}", file=m.rel(), line=n.lineno, func=q, expected=f"only {sorted(allowed_late)} rebound after construction (created in __init__)",
                               found=n.attr)
         chk.ok(rule, f"{mod}.{cname}::attributes-created-in-__init__", file=m.rel(), line=init.lineno, found=sorted(created))
+
+def state_deps(chk, program, rule='STATE-DEPS'):
+    """which instance attributes can influence what the decoder returns: the guards of every return / store in the three decode stages may
+    mention only configuration (written in __init__ only) and the two documented pieces of history (source map, reassembly buffers)"""
+    from . import sym
+    from .rules_filter import stage_events
+    HISTORY = {'source_to_iso_name', 'data'}
+    init = program.fn('decoder', 'NMEA2000Decoder.__init__')
+    config = {n.attr for n in ast.walk(init) if isinstance(n, ast.Attribute) and isinstance(n.ctx, ast.Store) and isinstance(n.value, ast.Name) and n.value.id == 'self'}
+    bookkeeping = {'logged_unsupported_pgns', 'dump_TextIOWrapper'}
+    m = program.mod('decoder')
+    # (1) configuration is never mutated after construction
+    for q, fn in m.defs.items():
+        if not q.startswith('NMEA2000Decoder.') or q == 'NMEA2000Decoder.__init__':
+            continue
+        for n in ast.walk(fn):
+            tgt = None; how = None
+            if isinstance(n, ast.Call) and isinstance(n.func, ast.Attribute) and n.func.attr in MUT_METHODS and isinstance(n.func.value, ast.Attribute) \
+                    and isinstance(n.func.value.value, ast.Name) and n.func.value.value.id == 'self':
+                tgt = n.func.value.attr; how = n.func.attr
+            if isinstance(n, ast.Subscript) and isinstance(n.ctx, (ast.Store, ast.Del)) and isinstance(n.value, ast.Attribute) and isinstance(n.value.value, ast.Name) and n.value.value.id == 'self':
+                tgt = n.value.attr; how = 'item assignment'
+            if isinstance(n, ast.AugAssign) and isinstance(n.target, ast.Attribute) and isinstance(n.target.value, ast.Name) and n.target.value.id == 'self':
+                tgt = n.target.attr; how = 'augmented assignment'
+            if tgt is None or tgt in HISTORY or tgt in bookkeeping:
+                continue
+            chk.check(tgt not in config, rule, f"{q}::self.{tgt}.{how}", file=m.rel(), line=n.lineno, func=q,
+                      expected='configuration (filter lists, options) is written by __init__ only', found=f"self.{tgt} modified by {how}",
+                      detail='a filter that changes while decoding makes the result of one message depend on the messages seen before it')
+    chk.ok(rule, 'configuration-written-in-__init__-only', file=m.rel(), line=init.lineno, found=sorted(config - HISTORY - bookkeeping))
+    # (2) bookkeeping state never decides anything
+    for qual in ('_decode', '_decode_fast_message', '_call_decode_function'):
+        try:
+            fn, ex = stage_events(program, qual)
+        except AnalysisError:
+            raise
+        used = {}
+        for e in ex.events:
+            if e[0] in ('return', 'store', 'del'):
+                for gterm in e[1]:
+                    for s_ in sym.walk(gterm):
+                        if s_[0] == 'attr' and s_[1] == ('param', 'self'):
+                            used.setdefault(s_[2], e[-1])
+        for a, ln in sorted(used.items()):
+            ok = (a in config and a not in bookkeeping) or a in HISTORY or a in ('_isFastPGN', '_log_unsupported_pgn_once', '_decode_fast_message', '_call_decode_function')
+            chk.check(ok, rule, f"{qual}::depends-on::self.{a}", file=m.rel(), line=ln, func=qual,
+                      expected='what is returned depends only on the configuration, the source map and the reassembly buffers', found=f"a guard reads self.{a}",
+                      detail='' if ok else 'state kept for logging / bookkeeping now decides whether a message is returned: an ignored or rejected input changes later results')
